@@ -33,6 +33,8 @@ pub struct CatOut {
     pub pending_trains: u64,
     /// signature -> (count, first detail, first replay)
     pub findings: BTreeMap<String, (u64, String, Value)>,
+    /// signature -> seeds whose mutants produced it
+    pub finding_seeds: BTreeMap<String, std::collections::BTreeSet<String>>,
     pub machinery: Vec<String>,
     pub seeds: u64,
     pub units: u64,
@@ -48,6 +50,9 @@ impl CatOut {
         for (k, (n, d, r)) in o.findings {
             let e = self.findings.entry(k).or_insert((0, d, r));
             e.0 += n;
+        }
+        for (k, v) in o.finding_seeds {
+            self.finding_seeds.entry(k).or_default().extend(v);
         }
         self.machinery.extend(o.machinery);
         self.seeds += o.seeds;
@@ -104,6 +109,7 @@ pub fn eval(cfg: Cfg, frame: &[u8], out: &mut CatOut, seed_name: &str, log: Opti
                 )
             });
             e.0 += 1;
+            out.finding_seeds.entry(x.sig()).or_default().insert(seed_name.to_string());
         }
     }
     out.pending_trains += mon.pending() as u64;
